@@ -171,8 +171,18 @@ fn record(i: usize, doc: &str, cname: &str, kind: &str) -> Value {
         let twice = dump_doc(&html);
         re.sanitize_with(&cfg);
         let sanre = dump_doc(&re);
+        // the convenience entry points must be the named configuration applied to the same text
+        let helper_eq = match cname {
+            "strict" => ruma_html::sanitize_html(doc, ruma_html::HtmlSanitizerMode::Strict, ruma_html::RemoveReplyFallback::No) == out,
+            "compat" => ruma_html::sanitize_html(doc, ruma_html::HtmlSanitizerMode::Compat, ruma_html::RemoveReplyFallback::No) == out,
+            "strict+noreply" => ruma_html::sanitize_html(doc, ruma_html::HtmlSanitizerMode::Strict, ruma_html::RemoveReplyFallback::Yes) == out,
+            "compat+noreply" => ruma_html::sanitize_html(doc, ruma_html::HtmlSanitizerMode::Compat, ruma_html::RemoveReplyFallback::Yes) == out
+                && { let h = Html::parse(doc); h.sanitize(); h.to_string() == out },
+            "none+noreply" => ruma_html::remove_html_reply_fallback(doc) == out,
+            _ => true,
+        };
         json!({"before": before, "after": after, "reparsed": reparsed, "twice_eq": twice == after, "sanre_eq": sanre == reparsed,
-               "reser_eq": reser == out, "sanre_text_eq": re.to_string() == reser, "out": out})
+               "reser_eq": reser == out, "sanre_text_eq": re.to_string() == reser, "helper_eq": helper_eq, "out": out})
     });
     match r {
         Ok(mut o) => {
@@ -183,7 +193,7 @@ fn record(i: usize, doc: &str, cname: &str, kind: &str) -> Value {
             o
         }
         Err(p) => json!({"i": i, "cfg": cname, "kind": kind, "panic": true, "msg": p, "doc": doc, "before": [], "after": [], "reparsed": [],
-                         "twice_eq": false, "sanre_eq": false, "reser_eq": false, "sanre_text_eq": false, "out": ""}),
+                         "twice_eq": false, "sanre_eq": false, "reser_eq": false, "sanre_text_eq": false, "helper_eq": false, "out": ""}),
     }
 }
 
@@ -224,6 +234,24 @@ pub fn run(args: &[String]) {
                 let doc = if el == "img" { format!("<{el}{extra} {at}=\"{v}\">") } else { format!("<{el}{extra} {at}=\"{v}\">t</{el}>") };
                 i += 1;
                 out.put(&record(i, &doc, c, "cross"));
+            }
+        }
+    }
+    // every element directly inside a representative of every parent class (kept, ignored, removed, replaced, reply, foreign)
+    let parents = ["div", "b", "center", "x-foo", "a href=\"javascript:x\"", "a href=\"https://x/\"", "script", "font color=\"#f00\"", "strike", "mx-reply",
+                   "table", "svg", "code class=\"evil\""];
+    for (pi, p) in parents.iter().enumerate() {
+        let pname = p.split(' ').next().unwrap();
+        for (ei, el) in ELEMENTS.iter().enumerate() {
+            for (k, c) in ["strict", "compat", "compat+noreply", "none", "strict.replace(b->strong)", "strict.ignore(a,i)"].iter().enumerate() {
+                if (pi + ei + k) % 2 == 1 && k >= 2 {
+                    continue;
+                }
+                let attrs = match *el { "font" => " color=\"#0f0\" data-x=\"1\"", "a" => " href=\"https://y/\"", "img" => " src=\"mxc://s/m\"", _ => "" };
+                let inner = if matches!(*el, "hr" | "br" | "img") { format!("<{el}{attrs}>") } else { format!("<{el}{attrs}>in<i>ner</i></{el}>") };
+                let doc = format!("pre<{p}>{inner} and plain</{pname}>post");
+                i += 1;
+                out.put(&record(i, &doc, c, "pair"));
             }
         }
     }
